@@ -8,7 +8,7 @@
      copy_buf    : the page-cache tee (src/http_response.cpp) driven by libstdc++ xsputn/sputc
      response    : headers map, setbuf, full_asynchronous_buffering, out(), finalize
    Independent decoders (unchunk, unrecord) are the specifications of the framing. *)
-From Coq Require Import NArith List Bool.
+From Coq Require Import NArith ZArith List Bool.
 Import ListNotations.
 Local Open Scope N_scope.
 
@@ -74,6 +74,9 @@ Fixpoint ci_compare (a b : bytes) : cmp :=
   | _, [] => Gt
   | x :: a', y :: b' => if lower x <? lower y then Lt else if lower y <? lower x then Gt else ci_compare a' b'
   end.
+(* the comparator of the map: icompare_type::operator()(l, r) = (protocol::compare(l, r) < 0); compare returns -1 / 0 / 1 *)
+Definition compare_int (a b : bytes) : Z := match ci_compare a b with Lt => (-1)%Z | Eq => 0%Z | Gt => 1%Z end.
+Definition icompare_less (a b : bytes) : bool := Z.ltb (compare_int a b) 0.
 Definition hmap := list (bytes * bytes).           (* sorted by ci_compare, unique keys: std::map<string,string,icompare> *)
 Fixpoint hmap_erase (m : hmap) (k : bytes) : hmap :=
   match m with
@@ -331,6 +334,18 @@ Definition dev_overflow (d : dev) (c : conn) (ch : option N) : dev * conn :=
 Definition dev_sputc (d : dev) (c : conn) (ch : N) : dev * conn :=
   if lenN (d_buf d) <? d_vsize d then (set_buf d (d_vsize d) (d_buf d ++ [ch]), c) else dev_overflow d c (Some ch).
 Definition dev_sync (d : dev) (c : conn) : dev * conn := dev_overflow d c None.
+(* overflow(int c) at the level of the C++ signature: sputc hands over traits::to_int_type(ch), an int in 0..255; sync hands over
+   EOF = -1.  The code narrows c to `char c_tmp` for the byte it appends, but must test the INT against EOF: (char)0xFF == EOF.
+   ovf_guard / ovf_byte are tied to the source in Link.v; ProofsOvf.v shows that for every byte value this is dev_overflow (Some x). *)
+Definition EOF_INT : Z := (-1)%Z.
+Definition ovf_guard (ci : Z) : bool := negb (Z.eqb ci EOF_INT).                (* if(c != EOF) *)
+Definition ovf_byte (ci : Z) : N := Z.to_N (Z.modulo ci 256).                    (* (unsigned char) c_tmp, c_tmp = (char) c *)
+Definition to_int_type (x : N) : Z := Z.of_N x.                                  (* x < 256 *)
+Definition dev_overflow_int (d : dev) (c : conn) (ci : Z) : dev * conn :=
+  dev_overflow d c (if ovf_guard ci then Some (ovf_byte ci) else None).
+Definition dev_sputc_int (d : dev) (c : conn) (ch : N) : dev * conn :=
+  if lenN (d_buf d) <? d_vsize d then (set_buf d (d_vsize d) (d_buf d ++ [ch]), c) else dev_overflow_int d c (to_int_type ch).
+Definition dev_sync_int (d : dev) (c : conn) : dev * conn := dev_overflow_int d c EOF_INT.
 Definition dev_flush (d : dev) (c : conn) : dev * conn :=
   let (d1, c1) := dev_write d c (gadd [] (d_buf d)) in (set_buf d1 (d_vsize d1) [], c1).
 Definition basic_setbuf (d : dev) (c : conn) (size : N) : dev * conn :=
